@@ -132,12 +132,20 @@ def evaluate(ctx, rng, idx, h):
             ctx.check("C12:degree", call(dm.in_degree, h, n, **kw) == ind[n], "C12:in_degree", lambda: wit((n, kw)))
             ctx.check("C12:degree", call(dm.out_degree, h, n, **kw) == outd[n], "C12:out_degree", lambda: wit((n, kw)))
         gi, go = call(dm.in_degree_sequence, h, **kw), call(dm.out_degree_sequence, h, **kw)
+        if f is not None and rng.random() < 0.3:
+            # the same filter handed over positionally, in the documented parameter order (hypergraph[, node], order, size)
+            pos = (f[1], None) if f[0] == "order" else (None, f[1])
+            n0 = rng.choice(list(S.nodes))
+            ctx.check("C12:degree", call(dm.in_degree, h, n0, *pos) == ind[n0], "C12:in_degree(positional-filter)", lambda: wit((n0, pos)))
+            ctx.check("C12:degree", call(dm.out_degree, h, n0, *pos) == outd[n0], "C12:out_degree(positional-filter)", lambda: wit((n0, pos)))
+            ctx.check("C12:degree", call(dm.in_degree_sequence, h, *pos) == ind, "C12:in_degree_sequence(positional-filter)", lambda: wit(pos))
+            ctx.check("C12:degree", call(dm.out_degree_sequence, h, *pos) == outd, "C12:out_degree_sequence(positional-filter)", lambda: wit(pos))
         ctx.check("C12:degree", gi == ind and isinstance(gi, dict) and len(gi) == len(S.nodes), "C12:in_degree_sequence", lambda: wit((kw, gi, ind)))
         ctx.check("C12:degree", go == outd and isinstance(go, dict) and len(go) == len(S.nodes), "C12:out_degree_sequence", lambda: wit((kw, go, outd)))
     # ---- signature -------------------------------------------------------------------------
-    for m in [None] + list(range(2, 9)):
+    for m in [None] + list(range(2, 9)) + [np.int64(rng.randint(2, 8))]:  # the bound also as a NumPy integer (sizes usually come from arrays)
         r = call(dm.hyperedge_signature_vector, h, m) if m is not None else call(dm.hyperedge_signature_vector, h)
-        mm = mx if m is None else m
+        mm = mx if m is None else int(m)
         if isinstance(r, _Raised):
             ctx.check("C12:signature", False, f"C12:signature:raised:{type(r.e).__name__}", lambda: wit((m, r)))
             continue
